@@ -64,8 +64,9 @@ class BoundField:
             return f"    {self.name}: {fd.ann} = {fd.plain_default}"
         return f"    {self.name}: {fd.ann}"
 
-    def spellings(self):
-        return (self.name,) + ((self.alias,) if self.alias else ()) + self.alias_from
+    def spellings(self, opts=None):
+        gen = (self.name + "_gen",) if (opts and opts.get("alias_from_generator") and not self.alias_from) else ()
+        return (self.name,) + ((self.alias,) if self.alias else ()) + self.alias_from + gen
 
 
 PRED2 = "(lambda v: v == 2)"
@@ -146,6 +147,12 @@ OPTION_SETS = [
     # several keys of one field under ignore_alias_conflicts are keys of that field, not unknown keys
     ("ignore_alias_conflicts=True, addition=True", dict(ignore_alias_conflicts=True, addition=True)),
     ("ignore_alias_conflicts=True, addition=False", dict(ignore_alias_conflicts=True, addition=False)),
+    # a class-level generator of input aliases: for the fields that declare no alias_from themselves
+    ("alias_from_generator=GEN", dict(alias_from_generator="GEN")),
+    ("alias_from_generator=GEN, addition=True", dict(alias_from_generator="GEN", addition=True)),
+    # the exclude policy next to the options that make every field optional
+    ("invalid_values='exclude', ignore_required=True", dict(invalid_values="exclude", ignore_required=True)),
+    ("invalid_values='exclude', force_default=9", dict(invalid_values="exclude", force_default=9)),
 ]
 # option sets that are also meaningful as *runtime* options of __from__ (alias / case maps are fixed at class creation;
 # the runtime addition *type* is documented to be ignored, so only None/True/False are used at run time)
@@ -163,11 +170,13 @@ def class_source(base, fields, opt_expr, name="S"):
 
 # --------------------------------------------------------------------------------------------- inputs
 
-def field_fragments(f: BoundField, ci: bool, tier, both_orders=False):
+def field_fragments(f: BoundField, ci: bool, tier, both_orders=False, gen=False):
     """input fragments for one field: lists of (key, value-expr)"""
     sp = list(f.spellings())
     variant = f.name.upper()
     sp_all = sp + [variant]            # the case variant is a field key only when the field is case-insensitive
+    if gen:
+        sp_all.append(f.name + "_gen")   # a key of the field only when it declares no alias_from of its own
     out = [()]
     single_vals = ["1", "'3'", "'x'", "2"]
     for s in sp_all:
@@ -188,10 +197,10 @@ def field_fragments(f: BoundField, ci: bool, tier, both_orders=False):
 EXTRA_FRAGS = [(), (("zz", "1"),), (("zz", "'x'"),), (("zz", "0"),), (("zz", "False"),)]
 
 
-def inputs_for(fields, ci_opt, tier):
+def inputs_for(fields, ci_opt, tier, gen=False):
     per = []
     for f in fields:
-        frs = field_fragments(f, ci_opt, tier, both_orders=(len(fields) == 1))
+        frs = field_fragments(f, ci_opt, tier, both_orders=(len(fields) == 1), gen=gen)
         if len(fields) > 1:
             # reduce: at most one pair fragment family per field in multi-field classes (quick)
             if tier != "thorough":
@@ -227,7 +236,7 @@ class Expect:
 
 def _field_key_owner(key, fields, opts):
     for f in fields:
-        names = f.spellings()
+        names = f.spellings(opts)
         if key in names:
             return f
         ci = f.fd.ci if f.fd.ci is not None else bool(opts.get("case_insensitive"))
